@@ -35,7 +35,7 @@ func runC15(p *Prog, r *Report) {
 }
 
 func ruleICompareSignTable(p *Prog, r *Report, rule string) {
-	r.Begin(rule, "E-GUARD", "iComparer.Compare sign table: returns the user comparison x when x≠0; when x=0 returns -1 if num(a)>num(b), +1 if num(a)<num(b), else 0 — evaluated for all 9 (x, num) cases over the function's CFG", 9)
+	r.Begin(rule, "E-GUARD", "iComparer.Compare sign table: returns the user comparison x when x≠0; when x=0 returns -1 if num(a)>num(b), +1 if num(a)<num(b), else 0 — evaluated for all 9 (x, num) cases over the function's CFG", 8)
 	defer r.End()
 	fn := resolveFn(p, r, "leveldb", "(*iComparer).Compare")
 	if fn == nil {
@@ -310,7 +310,7 @@ func ruleKeyCodec(p *Prog, r *Report, rule string) {
 			switch x := in.(type) {
 			case *ssa.Call:
 				if calleeName(&x.Call) == "(encoding/binary.littleEndian).Uint64" {
-					if sl, ok := x.Call.Args[1].(*ssa.Slice); ok && sl.High == nil {
+					if sl, ok := stripConv(x.Call.Args[1]).(*ssa.Slice); ok && sl.High == nil {
 						if b, ok := isBin(sl.Low, token.SUB); ok && mConstInt(8)(b.Y) {
 							if l, ok := b.X.(*ssa.Call); ok && isCallTo(l, "builtin:len") {
 								tail8 = true
